@@ -58,17 +58,17 @@ Qed.
 Print Assumptions C21_eq3_exact.
 
 (* any number type: the three-argument form only succeeds through the
-   documented computation, and the final comparison must answer Less or Equal
-   — with a NaN anywhere (partial_cmp = None) it fails *)
+   documented computation, and the final comparison |a - b| <= eps must answer
+   Less or Equal — with a NaN anywhere (partial_cmp = None) it fails *)
 Theorem C21_eq3_struct :
   forall (T : Type) (N : numops T) tbl res keys l r eps,
     p_assert_eq3 N tbl res keys l r eps = Continue ->
-    exists lc rc d e',
+    exists lc rc d,
       convert_to N tbl res keys l (q_unit eps) = Ok lc
       /\ convert_to N tbl res keys r (q_unit eps) = Ok rc
       /\ qsub N tbl res keys lc rc = Ok d
-      /\ convert_to N tbl res keys eps (q_unit d) = Ok e'
-      /\ (n_cmp N (n_abs N (q_val d)) (q_val e') = Some Lt \/ n_cmp N (n_abs N (q_val d)) (q_val e') = Some Eq).
+      /\ (q_partial_cmp N tbl res keys (qabs N d) eps = Some Lt
+          \/ q_partial_cmp N tbl res keys (qabs N d) eps = Some Eq).
 Proof. intros T N tbl res keys l r eps. exact (assert_eq3_struct N tbl res keys l r eps). Qed.
 Print Assumptions C21_eq3_struct.
 
